@@ -180,6 +180,10 @@ static void choose_names()
   for (const char * n : {"Am241", "Po210", "U238", "Th230"})
     if (bk.count(n) && !db.count(n) && core_emits(n, bxdecay0::ALPHA) && nuclide_name["puba"].empty()) nuclide_name["puba"] = n;
   nuclide_name["pubz"] = (bk.count("Kr81") && !db.count("Kr81") && find_zero_momentum_seed("Kr81")) ? "Kr81" : "";
+  // published in BOTH catalogues
+  for (const char * n : {"Pb214", "Po218", "Rn222"})
+    if (bk.count(n) && db.count(n) && core_init_ok(false, n) && nuclide_name["pubb"].empty()) nuclide_name["pubb"] = n;
+  if (nuclide_name["pubb"].empty()) nuclide_name["pubb"] = "";
   if (nuclide_name["pubp"].empty()) nuclide_name["pubp"] = "";
   if (nuclide_name["puba"].empty()) nuclide_name["puba"] = "";
   for (const char * n : {"Xx99", "Qq1"}) {
@@ -203,7 +207,8 @@ static bool concrete_nuclide(const Cfg & c, std::string & name)
     return true;
   }
   std::string side = (c.cat == "dbd") ? "dbd" : "bkg"; // "bad"/"none" categories: any name will do
-  auto it          = (c.nuc == "pubp" || c.nuc == "puba" || c.nuc == "pubz") ? nuclide_name.find(c.nuc) : nuclide_name.find(side + "/" + c.nuc);
+  if (c.nuc == "pubb" && side == "dbd") return false;   // the class is about background requests
+  auto it          = (c.nuc == "pubp" || c.nuc == "puba" || c.nuc == "pubz" || c.nuc == "pubb") ? nuclide_name.find(c.nuc) : nuclide_name.find(side + "/" + c.nuc);
   if (it == nuclide_name.end() || it->second.empty()) return false;
   name = it->second;
   return true;
